@@ -477,6 +477,12 @@ impl<'t> RRIterator<'t> {
         let offset = self
             .offset
             .expect("recompute() called prior to iterating over RRs");
+        if self.section == Section::Edns {
+            // EDNS options have no name
+            self.name_end = offset;
+            self.offset_next = Self::edns_skip_rr(self.parsed_packet.packet(), offset);
+            return;
+        }
         let name_end = Self::skip_name(self.parsed_packet.packet(), offset);
         let offset_next = if self.section == Section::Question {
             name_end + DNS_RR_QUESTION_HEADER_SIZE
